@@ -217,7 +217,7 @@ def tstep (s : Shared) (t : Tid) (l : Loc) (ch : Choice) : Out :=
     | .cmd c => if l.emb then none else
         some (s, { l with pc := .sw, cmd := c, ctx := .direct, inLook := false, panicking := false }, [])
     | .embed => if s.clients.contains t then none else
-        some (s, { l with pc := .b0, emb := true, ctx := .embedded, inLook := false, panicking := false }, [])
+        some (s, { l with pc := .b0, cmd := .multi, emb := true, ctx := .embedded, inLook := false, panicking := false }, [])
   ------------------------------------------------------------------ nodis.go, the closure of Serve
   | .sw =>  -- c := GetCommand(cmd.Name); switch cmd.Name
     match l.cmd with
